@@ -752,6 +752,7 @@ def welltyped(t):
     if isinstance(t, Un): return t.op in unops(t.ty) and welltyped(t.a)
     if isinstance(t, Sh): return welltyped(t.a)
     if t.a.ty is None and t.b.ty is None: return False
+    if t.op == "hypot" and t.ty != "f": return False            # hypot exists for mpf results only
     if t.ty != "z" and t.op not in (FBIN if t.ty == "f" else QBIN): return False
     return welltyped(t.a) and welltyped(t.b)
 
